@@ -1013,7 +1013,11 @@ def _get_unit_data_from_expr(unit_expr, unit_symbol_lut):
         if isinstance(power, Symbol) or getattr(power, "free_symbols", None):
             # an exponent that contains a unit symbol, e.g. "m**(2*s)"
             raise UnitParseError(f"Invalid unit expression '{unit_expr}'.")
-        conv = float(unit_data[0] ** power)
+        try:
+            conv = float(unit_data[0] ** power)
+        except TypeError:
+            # a fractional power of a negative coefficient is not a real number
+            raise UnitParseError(f"Invalid unit expression '{unit_expr}'.")
         unit = unit_data[1] ** power
         return (conv, unit)
 
